@@ -35,9 +35,11 @@ type LScen struct {
 	Steps  [][]interface{} `json:"steps"`
 	Refuse []int           `json:"refuse,omitempty"` // connections the secret provider refuses
 	Loader bool            `json:"loader,omitempty"` // admission goes through a real loader.Loader that shares Serve's context (as cmds/server/main.go wires it)
+	Proxy  bool            `json:"proxy,omitempty"`  // the server runs with SetUseProxy(true): a PROXY line precedes every packet (as the code expects it)
 }
 
 type lifeRun struct {
+	proxy     bool
 	rec       *Rec
 	mu        sync.Mutex
 	lis       *FakeListener
@@ -318,7 +320,11 @@ func (r *lifeRun) packet(c int) []byte {
 		delete(r.sess, c)
 	}
 	r.mu.Unlock()
-	return append([]byte{0xc0, 1, byte(seq), 1, byte(sid >> 24), byte(sid >> 16), byte(sid >> 8), byte(sid), 0, 0, byte(n >> 8), byte(n)}, body...)
+	pk := append([]byte{0xc0, 1, byte(seq), 1, byte(sid >> 24), byte(sid >> 16), byte(sid >> 8), byte(sid), 0, 0, byte(n >> 8), byte(n)}, body...)
+	if r.proxy {
+		pk = append([]byte("PROXY TCP4 10.9.9.9 10.0.0.2 1000 49\r\n\x00"), pk...)
+	}
+	return pk
 }
 
 func (r *lifeRun) run(sc *LScen) {
@@ -344,7 +350,8 @@ func (r *lifeRun) run(sc *LScen) {
 	if sc.Loader {
 		r.ld = newLifeLoader(ctx)
 	}
-	srv := tq.NewServer(NewCapLog(nil, false), r)
+	r.proxy = sc.Proxy
+	srv := tq.NewServer(NewCapLog(nil, false), r, tq.SetUseProxy(sc.Proxy))
 	r.served = make(chan struct{})
 	go func() {
 		srv.Serve(ctx, r.lis)
